@@ -271,17 +271,20 @@ theorem foldl_values (z : F → F) :
     (SMap.values (X.sharesMap z)).foldl (fun a s => a + s) 0 = (X.ids.map z).sum := by
   rw [values_sharesMap, foldl_add_eq_sum, zero_add]
 
-/-- the culprit report of `detect_cheater` -/
-def culpritError (Y : F → E) (z : F → F) (mode : CheaterDetection) : Err F :=
+/-- the error `detect_cheater` reports when `bad` marks the signers whose share fails -/
+def culpritReport (ids : List F) (bad : F → Bool) (mode : CheaterDetection) : Err F :=
   match mode with
   | .Disabled => .InvalidSignature
   | .FirstCheater =>
-    match X.ids.find? fun i => decide (¬ shareOk (B := B) (X := X) Y z i) with
+    match ids.find? bad with
     | some i => .InvalidSignatureShare [i]
     | none => .InvalidSignature
   | .AllCheaters =>
-    let cs := X.ids.filter fun i => decide (¬ shareOk (B := B) (X := X) Y z i)
-    if cs.isEmpty then .InvalidSignature else .InvalidSignatureShare cs
+    if (ids.filter bad).isEmpty then .InvalidSignature else .InvalidSignatureShare (ids.filter bad)
+
+/-- the culprit report of `detect_cheater` in the session -/
+def culpritError (Y : F → E) (z : F → F) (mode : CheaterDetection) : Err F :=
+  culpritReport X.ids (fun i => decide (¬ shareOk (B := B) (X := X) Y z i)) mode
 
 /-- **Exact behaviour of `aggregate_custom`** on submitted shares `z` against verifying
     shares `Y`: the signature `(R, Σz)` is released iff it satisfies the (cofactored)
@@ -334,7 +337,7 @@ theorem aggregate_eq (h : X.Ok B) (Y : F → E) (z : F → F) (pkp : PublicKeyPa
       have := detectLoop_eq h Y z pkp.vshares hvs true X.ids (fun i hi => hi) []
       unfold sharesMap
       rw [show CheaterDetection.isFirst .FirstCheater = true from rfl, this]
-      simp only [culpritError, List.nil_append, if_true]
+      simp only [culpritError, culpritReport, List.nil_append, if_true]
       cases X.ids.find? fun i => decide (¬ shareOk (B := B) (X := X) Y z i) <;> simp
     | AllCheaters =>
       unfold detectCheater
@@ -342,7 +345,7 @@ theorem aggregate_eq (h : X.Ok B) (Y : F → E) (z : F → F) (pkp : PublicKeyPa
       have := detectLoop_eq h Y z pkp.vshares hvs false X.ids (fun i hi => hi) []
       unfold sharesMap
       rw [show CheaterDetection.isFirst .AllCheaters = false from rfl, this]
-      simp only [culpritError, List.nil_append, Bool.false_eq_true, if_false]
+      simp only [culpritError, culpritReport, List.nil_append, Bool.false_eq_true, if_false]
       by_cases hcs : (X.ids.filter fun i => decide (¬ shareOk (B := B) (X := X) Y z i)).isEmpty = true
       · simp only [hcs, Bool.not_true, Bool.false_eq_true, if_false, if_true]
       · simp only [hcs, Bool.not_false, if_true, Bool.false_eq_true, if_false]
